@@ -2,6 +2,7 @@ import OFCore.Lemmas.EngineStore
 import OFCore.RuleSys
 import OFCore.PeriodSpec
 import OFCore.Lemmas.RuleSysCoherent
+import OFCore.Lemmas.EngineTotal
 /-!
 # C01 — a calculated value equals the rule system's meaning on the given inputs
 
@@ -31,6 +32,17 @@ theorem C01_calculate_eq_den (sys : Sys P) (hk : SlotCoherent sys) (rk : Nat →
   unfold request
   simp only [h1, h3, hs, if_true]
   rw [purge_of_inval_nil sys s' h4]
+
+/-- Unconditional form: in a system whose variables form a DAG every node HAS a meaning, reached
+    with `rk v + 1` units of fuel, and the request returns it.  (No "if the meaning exists".) -/
+theorem C01_calculate_total (sys : Sys P) (hk : SlotCoherent sys) (rk : Nat → Nat) (hr : VarRanked sys rk)
+    (hmsl : 1 ≤ sys.msl) (s : St P) (hc : Cons sys s.cache) (hs : s.stack = []) (hi : s.inval = [])
+    (v : Nat) (p : P) :
+    ∃ r s', den sys (rk v + 1) v p = some r ∧ request sys (rk v + 1) s (v, p) = some (r, false, s') ∧
+      Cons sys s'.cache ∧ s'.stack = [] ∧ s'.inval = [] := by
+  obtain ⟨r, hd⟩ := den_total sys rk hr (rk v) v p (Nat.le_refl _)
+  obtain ⟨s', h1, h2, h3, h4⟩ := C01_calculate_eq_den sys hk rk hr hmsl (rk v + 1) s hc hs hi v p r hd
+  exact ⟨r, s', hd, h1, h2, h3, h4⟩
 
 /-- The same for every finite sequence of requests, successful or not: each one returns its
     meaning, whatever was requested before (every reachable state is consistent). -/
